@@ -10,6 +10,7 @@ From Coq Require Import List NArith ZArith Bool Arith.
 Import ListNotations.
 Require Import Base.Wire Base.PyStr.
 Require gen.T16.
+Require C13.Utf8.
 Open Scope N_scope.
 
 Definition SP : N := 32.   Definition TAB : N := 9.    Definition LF : N := 10.
@@ -977,6 +978,28 @@ Definition nick_lists_nonempty (u : user) : bool :=
   forallb (fun nn : str * list str => match snd nn with [] => false | _ => true end) (u_nicks u).
 
 (* ------------------------------------------------------------------ *)
+(* bytes on disk (added).  The writers go through utils.file.AtomicFile, which encodes utf8; the readers
+   open the file either with encoding='utf8' or without an encoding, i.e. with the preferred encoding of
+   the locale (tables READER_DECODES_UTF8 / IGN_READER_DECODES_UTF8), which is an input of the model.
+   Decoding is modelled on the whole file (the real reader decodes in 8 KiB chunks: a file that cannot be
+   decoded may be loaded up to the chunk holding the first bad byte). *)
+Inductive fenc := EUtf8 | ELatin1 | EAscii.
+Definition decode_as (e : fenc) (bs : bytes) : res str :=
+  match e with
+  | EUtf8 => C13.Utf8.utf8_decode bs
+  | ELatin1 => Ok bs
+  | EAscii => if forallb C13.Utf8.is_ascii bs then Ok bs else Raise UnicodeError
+  end.
+Definition file_bytes (text : str) : res bytes := C13.Utf8.utf8_encode text.
+Definition reader_enc (explicit_utf8 : bool) (locale : fenc) : fenc := if explicit_utf8 then EUtf8 else locale.
+(* the text the Reader-based loaders (users, channels, networks) / IgnoresDB.open see for a flushed text *)
+Definition reread (locale : fenc) (text : str) : res str :=
+  do b <- file_bytes text; decode_as (reader_enc gen.T16.READER_DECODES_UTF8 locale) b.
+Definition reread_ign (locale : fenc) (text : str) : res str :=
+  do b <- file_bytes text; decode_as (reader_enc gen.T16.IGN_READER_DECODES_UTF8 locale) b.
+Definition gEnc (v : value) : fenc := match gN v with 1 => ELatin1 | 2 => EAscii | _ => EUtf8 end.
+
+(* ------------------------------------------------------------------ *)
 (* wire                                                                *)
 
 Definition vZ (z : Z) : value := I z.
@@ -1028,6 +1051,7 @@ Definition run (v : value) : value :=
   | 15 => let r := add_nick (map gUser (gL (nth_v 0 p))) (gUser (nth_v 1 p)) (gS (nth_v 2 p)) (gS (nth_v 3 p)) (gB (nth_v 4 p)) in
           L [vUser (fst r); vExn (snd r)]
   | 16 => let r := remove_nick (gUser (nth_v 0 p)) (gS (nth_v 1 p)) (gS (nth_v 2 p)) in L [vUser (fst r); vExn (snd r)]
+  | 17 => L [vR vS (reread (gEnc (nth_v 0 p)) (gS (nth_v 1 p))); vR vS (reread_ign (gEnc (nth_v 0 p)) (gS (nth_v 1 p)))]
   | 12 => vB (glob (gS (nth_v 0 p)) (gS (nth_v 1 p)))
   | 13 => vB (is_user_hostmask (gS p))
   | _ => L []
